@@ -758,3 +758,11 @@ pub mod stall {
 		}
 	}
 }
+
+/// Memtable arena accounting (C15): the node sizes behind the batch admission check.
+pub mod memtable {
+	/// (smallest skiplist node, largest skiplist node, bytes used by an empty skiplist).
+	pub fn node_sizes() -> (usize, usize, usize) {
+		crate::memtable::verif_node_sizes()
+	}
+}
